@@ -374,4 +374,86 @@ Proof.
   apply IH; assumption.
 Qed.
 
+(* ------------------------------------------------------------------ every live, guarded pair trace *)
+Lemma psim_prefix c sd (s : pair) dops :
+  pconfig_ok c = true ->
+  psim (dir_isn sd c) (pc_tx_init c) sd s (dp_run (dir_init sd c) dops) ->
+  dp_guards (dp_run (dir_init sd c) dops) = true ->
+  is_prefix (gr s (other sd)) (gw s sd).
+Proof.
+  intros Hok H Hg.
+  destruct (pconfig_ok_facts c Hok) as (C1 & C2 & C3 & C4 & C5 & C6 & C7).
+  assert (Hisn : 0 <= dir_isn sd c < M16) by (destruct sd; cbn [dir_isn]; [apply wadd16_range|exact C2]).
+  assert (Hrx : 0 < dir_max_rx sd c) by (destruct sd; cbn [dir_max_rx]; assumption).
+  assert (Hin : 0 < dir_max_in sd c).
+  { destruct sd; cbn [dir_max_in]; [pose proof (VSock_Lemmas.mss_ss_new_pos (ss_config_of (cfg_b c)))|
+                                    pose proof (VSock_Lemmas.mss_ss_new_pos (ss_config_of (cfg_a c)))]; lia. }
+  pose proof (dp_prefix (dir_isn sd c) (pc_tx_init c) (dir_max_rx sd c) (dir_max_in sd c) dops Hisn C3 Hrx Hin Hg) as Hp.
+  fold (dir_init sd c) in Hp.
+  destruct H as [_ _ (p & _ & P2 & _) R _ _ _ _ _].
+  rewrite R, P2 in Hp. destruct (tx_skip_fields (v_tx (ep s sd)) p) as (_&_&_&_&_&_&_&_&F9&_).
+  rewrite F9 in Hp. exact Hp.
+Qed.
+
+Lemma psim_ss isn ti sd (s : pair) d : psim isn ti sd s d -> ss_ok (v_ss (p_a s)) /\ ss_ok (v_ss (p_b s)).
+Proof. intros [_ _ _ _ _ _ _ H1 H2]. destruct sd; cbn [ep other] in H1, H2; auto. Qed.
+
+Lemma pair_trace_good c sd : forall ops (s : pair) pre,
+  pconfig_ok c = true ->
+  psim (dir_isn sd c) (pc_tx_init c) sd s (dp_run (dir_init sd c) pre) ->
+  live_run cci sd s ops = true ->
+  exists dops,
+    psim (dir_isn sd c) (pc_tx_init c) sd (prun cci s ops) (dp_run (dir_init sd c) (pre ++ dops)) /\
+    (dp_guards (dp_run (dir_init sd c) (pre ++ dops)) = true -> good_run (other sd) s ops).
+Proof.
+  induction ops as [|o ops IH]; intros s pre Hok H Hl; cbn [live_run good_run prun] in *.
+  - exists []. rewrite app_nil_r. auto.
+  - apply andb_true_iff in Hl. destruct Hl as [Hl1 Hl2].
+    destruct (pstep_refines cci _ _ sd s _ o H Hl1) as (o1 & H1).
+    rewrite <- dp_run_app in H1.
+    destruct (IH _ (pre ++ o1) Hok H1 Hl2) as (o2 & H2 & H3).
+    exists (o1 ++ o2). rewrite app_assoc. split; [exact H2|]. intro Hg.
+    destruct (psim_ss _ _ _ _ _ H) as [Sa Sb].
+    split; [exact Sa|]. split; [exact Sb|]. split; [|apply H3; exact Hg].
+    assert (Hw : writer_of (other sd) = sd) by (destruct sd; reflexivity). rewrite Hw.
+    apply (psim_prefix c sd _ (pre ++ o1) Hok H1).
+    rewrite dp_run_app in Hg. apply guards_mono_run in Hg. exact Hg.
+Qed.
+
+Lemma pair_new_acc (mk_cc : Z -> Z -> CC) c (s0 : pair) :
+  pair_new cci mk_cc c = Some s0 -> acc_inv s0 /\ forall rd, dc_inv rd s0 dchk0.
+Proof.
+  unfold pair_new.
+  destruct (vsock_new cci mk_cc (cfg_a c)) as [a|] eqn:Ea; [|discriminate].
+  destruct (vsock_new cci mk_cc (cfg_b c)) as [b|] eqn:Eb; [|discriminate].
+  intro H; injection H as <-.
+  destruct (vsock_new_fields cci _ _ _ Ea) as (A1 & _ & A3 & _).
+  destruct (vsock_new_fields cci _ _ _ Eb) as (B1 & _ & B3 & _).
+  assert (Hg : forall sd, gw {| p_a := a; p_b := b; p_fin_a := false; p_fin_b := false; p_ab := []; p_ba := [];
+                               p_hole := None; p_wa := hacc0; p_ra := hacc0; p_wb := hacc0; p_rb := hacc0 |} sd = [] /\
+                          gr {| p_a := a; p_b := b; p_fin_a := false; p_fin_b := false; p_ab := []; p_ba := [];
+                               p_hole := None; p_wa := hacc0; p_ra := hacc0; p_wb := hacc0; p_rb := hacc0 |} sd = []).
+  { intros [|]; unfold gw, gr; cbn [ep p_a p_b]; rewrite ?A1, ?A3, ?B1, ?B3; split; reflexivity. }
+  split.
+  - intros sd. destruct (Hg sd) as [G1 G2]. rewrite G1, G2. destruct sd; split; reflexivity.
+  - intros rd. destruct (Hg rd) as [_ G2]. destruct (Hg (writer_of rd)) as [G1 _].
+    unfold dc_inv. rewrite G1, G2. cbn. split; [reflexivity|]. split; [reflexivity|exists []; reflexivity].
+Qed.
+
+(* the extracted predicate of one direction holds on every live pair trace whose data-path run is guarded *)
+Theorem pair_trace_dir_ok (mk_cc : Z -> Z -> CC) c (s0 : pair) sd ops :
+  pconfig_ok c = true -> pair_new cci mk_cc c = Some s0 -> live_run cci sd s0 ops = true ->
+  exists dops,
+    psim (dir_isn sd c) (pc_tx_init c) sd (prun cci s0 ops) (dp_run (dir_init sd c) dops) /\
+    (dp_guards (dp_run (dir_init sd c) dops) = true ->
+     c01_dir_ok (other sd) (zip_obs ops (ptrace cci s0 ops)) = true).
+Proof.
+  intros Hok Hnew Hlive.
+  pose proof (pair_new_psim cci mk_cc c s0 sd Hok Hnew) as H0.
+  destruct (pair_new_acc mk_cc c s0 Hnew) as [Hacc Hdc].
+  destruct (pair_trace_good c sd ops s0 [] Hok H0 Hlive) as (dops & H1 & H2). cbn [app] in H1, H2.
+  exists dops. split; [exact H1|]. intro Hg.
+  unfold c01_dir_ok. rewrite (good_run_dir_ok (other sd) ops s0 dchk0 0 Hacc (Hdc _) (H2 Hg)). reflexivity.
+Qed.
+
 End Obs.
